@@ -192,6 +192,7 @@ type scen struct {
 	sib      [][]string // batches received from the sibling router
 	bfd      int        // BFD messages sent by a BFD sender thread on interface 2
 	early    bool       // shutdown may race with the traffic (otherwise it starts after quiescence + leak check)
+	nosib    bool       // no sibling router: 3 connections, so the processor / slow-path queues hold only 3*batch packets
 }
 
 func scenariosC14() []scen {
@@ -206,6 +207,10 @@ func scenariosC14() []scen {
 				scen{name: "tosib+fromsib", batch: b, ext3: [][]string{{"tosib"}}, sib: [][]string{{"fromsib"}}, bfd: 1, early: early},
 				scen{name: "3fwd-burst", batch: b, ext3: [][]string{{"fwd"}, {"fwd"}, {"fwd"}}, early: early},
 				scen{name: "2slow+deliver", batch: b, ext3: [][]string{{"badmac", "badmac"}}, sib: [][]string{{"fromsib"}}, early: early},
+				// bursts that overflow the (small) queues: the drop paths return buffers, too
+				scen{name: "5slow-burst", batch: b, nosib: true, ext3: [][]string{{"badmac"}, {"badmac"}, {"badmac"}, {"badmac"}, {"badmac"}}, early: early},
+				scen{name: "5fwd-burst", batch: b, nosib: true, ext3: [][]string{{"fwd"}, {"fwd"}, {"fwd"}, {"fwd"}, {"fwd"}}, bfd: 1, early: early},
+				scen{name: "4garbage+host-burst", batch: b, nosib: true, ext3: [][]string{{"garbage"}, {"garbage"}, {"badmac"}, {"fwd"}}, internal: [][]string{{"stun"}, {"host"}, {"stun"}}, early: early},
 			)
 		}
 	}
@@ -280,6 +285,9 @@ func runC14(sc scen, choose vsched.Chooser, fault func() int) outcome {
 		Ifs: []rtr.IfCfg{{ID: 3, LT: topology.Child, Nbr: rtr.NbrIA(3)}, {ID: 2, LT: topology.Parent, Nbr: rtr.NbrIA(2)},
 			{ID: 12, LT: topology.Parent, Nbr: rtr.NbrIA(12), Owner: 1}, {ID: 13, LT: topology.Child, Nbr: rtr.NbrIA(13), Owner: 1}}}
 	kinds := packetKinds(&cfg)
+	if sc.nosib {
+		cfg.Ifs = cfg.Ifs[:2]
+	}
 	conns := map[string]*sconn{}
 	cfg.ConnFactory = func(l, r netip.AddrPort) router.BatchConn {
 		name := "internal"
@@ -307,7 +315,9 @@ func runC14(sc scen, choose vsched.Chooser, fault func() int) outcome {
 	}
 	script("ext3", sc.ext3)
 	script("internal", sc.internal)
-	script("sib", sc.sib)
+	if !sc.nosib {
+		script("sib", sc.sib)
+	}
 	ctx := &vctx{done: make(chan struct{})}
 	vsched.ChanHook = mon.hook
 	defer func() { vsched.ChanHook = nil }()
@@ -397,7 +407,8 @@ func TestC14(t *testing.T) {
 	r.Rule = "scenario = batch size x packet script (<=3 packets of kinds forwardable/slow-path/garbage/to-sibling/from-sibling/" +
 		"from-host/STUN on 3 links) x BFD sender x shutdown racing or after quiescence; for each: all schedules of the real " +
 		"Run pipeline (receivers, processor, slow path, internal-link processor, senders, BFD sender, shutdown) with at most " +
-		"P preemptions and write faults (partial / failed WriteBatch count as deviations too)"
+		"D deviations from the default deterministic scheduler; a deviation is a preemption, a non-default successor when the " +
+		"running thread blocks, a non-default ready select case, or a write fault (partial / failed WriteBatch)"
 	scs := scenariosC14()
 	shard, nShards, isChild := mc.ShardOf()
 	bound := mc.Pick(1, 2)
@@ -417,6 +428,9 @@ func TestC14(t *testing.T) {
 			continue
 		}
 		name := fmt.Sprintf("%s/batch=%d/early=%v", sc.name, sc.batch, sc.early)
+		if sc.batch == 2 && !mc.Thorough() && (sc.nosib || si%2 == 1) {
+			continue // quick: batch size 2 on part of the scenarios only
+		}
 		// determinism self-check
 		d1 := runC14(sc, func(int, bool) int { return 0 }, func() int { return 0 })
 		d2 := runC14(sc, func(int, bool) int { return 0 }, func() int { return 0 })
@@ -429,12 +443,10 @@ func TestC14(t *testing.T) {
 		var x *mc.Ctx
 		body := func(xx *mc.Ctx) {
 			x = xx
-			o := runC14(sc, func(n int, curEnabled bool) int {
-				if curEnabled {
-					return x.Dev(n)
-				}
-				return x.Choose(n)
-			}, func() int { return x.Dev(3) })
+			// deviation bounding over ALL scheduling decisions (delay bounding): the default scheduler keeps the
+			// running thread and, when it blocks, continues with the lowest-numbered enabled thread; every other
+			// decision (a preemption, another successor, another ready select case, a write fault) costs one deviation
+			o := runC14(sc, func(n int, curEnabled bool) int { return x.Dev(n) }, func() int { return x.Dev(3) })
 			points += int64(o.points)
 			stranded += int64(o.stranded)
 			det := map[string]any{"scenario": name, "schedule": fmt.Sprint(x.Choices())}
